@@ -1423,6 +1423,11 @@ func getHashCode(n NodeNavigator) uint64 {
 	case AttributeNode, TextNode, CommentNode:
 		// https://github.com/antchfx/htmlquery/issues/25
 		name = n.LocalName() + "=" + n.Value()
+		if attr {
+			// Attributes of one element may share a local name under
+			// different prefixes; ':' cannot occur in either part.
+			name = n.Prefix() + ":" + name
+		}
 	case ElementNode:
 		name = n.Prefix() + n.LocalName()
 	default:
